@@ -58,7 +58,9 @@ macro_rules! each_codec_type {
 			LinkedList<u8>, LinkedList<u32>, LinkedList<String>, LinkedList<()>, LinkedList<Option<u16>>,
 			Vec<Vec<Vec<Vec<u8>>>>, Vec<Option<Box<String>>>, BTreeMap<u8, Vec<BTreeSet<u16>>>,
 			Option<(Vec<u8>, Box<[u16; 3]>)>, Vec<(u8, u32)>, Vec<Vec<u16>>, VecDeque<Vec<u8>>, Vec<Box<u16>>,
-			Vec<Rc<u8>>, Vec<BTreeMap<u8, u8>>, LinkedList<Vec<u32>>, Option<Vec<Option<Vec<u8>>>>
+			Vec<Rc<u8>>, Vec<BTreeMap<u8, u8>>, LinkedList<Vec<u32>>, Option<Vec<Option<Vec<u8>>>>,
+			Vec<NonZeroU128>, Vec<NonZeroU8>, [NonZeroU32; 3], VecDeque<NonZeroI16>, Box<[NonZeroU64; 2]>, Vec<NonZeroI128>,
+			Hdr, [Hdr; 3], [[Hdr; 2]; 2], Vec<Hdr>, Option<[Hdr; 1]>
 		);
 		each_seq_type!($f, $args);
 		each_feature_type!($f, $args);
@@ -97,7 +99,7 @@ macro_rules! each_feature_type {
 			STransp, Box<STransp>, [STransp; 3], Box<STranspBig>, Vec<STransp>, CA, Compact<CA>, SHasCompact,
 			EPlain, EDisc, EIdx, ESkip, EBoth, SWide, EWide, Vec<SWide>, STranspSk, Box<STranspSk>, (Box<STranspSk>, u32), [STranspSk; 2],
 			[EV1; 3], Vec<[EV1; 2]>, ([EV1; 2], u8), Vec<EV1>, LinkedList<EV1>, BTreeMap<u8, EV1>, LinkedList<SZ>, Vec<STranspBig>, Vec<[u64; 100]>, VecDeque<[u32; 70]>, BinaryHeap<[u8; 200]>, (u8, Vec<[u16; 300]>), SZ, Vec<SZ>, (Vec<SZ>, u8), STranspCM, Box<STranspCM>, [STranspCM; 3], Box<STranspEA>, [STranspEA; 2], EV1, Box<EV1>, Rc<EV1>, (Box<EV1>, u8), Vec<Box<EV1>>, [Box<EV1>; 2], STranspZ, Box<STranspZ>, [STranspZ; 3], Rc<STranspZ>, (Box<STranspZ>, u16), STranspC, Box<STranspC>, [STranspC; 3], Rc<STranspC>, (u8, Box<STransp>), Vec<EPlain>, Option<EIdx>, [ESkip; 2], Box<EPlain>,
-			SMelGeneric<u32>, SMelCA, EMelCompact, RV, RB, Tree, RM, RL, Vec<SNamed>, Vec<SUnit>, BTreeMap<u8, EPlain>, Vec<SCompact>
+			SMelGeneric<u32>, SMelCA, EMelCompact, EMelShapes, CA16, Compact<CA16>, SMelCA16, RV, RB, Tree, RM, RL, Vec<SNamed>, Vec<SUnit>, BTreeMap<u8, EPlain>, Vec<SCompact>
 		);
 		#[cfg(feature = "bit-vec")]
 		each_codec_type!(@list $f, $args;
@@ -137,7 +139,8 @@ macro_rules! each_mel_type {
 		#[cfg(feature = "derive")]
 		each_mel_type!(@list $f, $args;
 			STuple, SUnit, SCompact, SSkip, SSingleCompact, SEncodedAs, STransp, CA, EDisc, EIdx, ESkip, EBoth,
-			[SCompact; 2], Option<SEncodedAs>, (SSingleCompact, u8), SMelGeneric<u32>, SMelGeneric<u64>, SMelCA, EMelCompact
+			[SCompact; 2], Option<SEncodedAs>, (SSingleCompact, u8), SMelGeneric<u32>, SMelGeneric<u64>, SMelCA, EMelCompact,
+			EMelShapes, CA16, Compact<CA16>, SMelCA16, [SMelCA16; 2], Option<EMelShapes>
 		);
 	}};
 	(@list $f:ident, $args:tt; $($t:ty),* $(,)?) => {
